@@ -26,8 +26,12 @@ RULE = (
     "one case = one seeded history: repository format, initial history, a source repository with a longer history "
     "(merges, a diverged line), 3-12 operations (commit, pull, push into, fetch, tags, branch config, lock_write/unlock, "
     "get_parent_map, last_revision_info, revision and tree reads, revno lookups, set_last_revision_info, set/get parent, "
-    "create a stacked branch, re-open) x seeded segmentation/short reads of every protocol message x server medium flavour "
-    "x (faulty sub-batch) one connection reset placed by verb class; non-trivial = at least one operation changed the "
+    "create a stacked branch, re-open), executed with per-operation locking and - in 5 of 6 plans - with one or two OUTER LOCK SPANS (lock_write, 2-5 generated "
+    "operations such as commit / pull of new revisions / commit, or tag and config sequences, unlock; the source branch may carry tags) "
+    "x seeded segmentation/short reads of every protocol message x server medium flavour "
+    "x (faulty sub-batch) one fault placed by verb class or exact verb: a connection reset (send / eof_after), a reset that also hits the client's one "
+    "retransmission (send2 / eof_send: the operation fails), or one disk error on the SERVER (store_err: an error response), followed by the seeded way the "
+    "caller goes on: repeat the operation on the same objects inside the same lock (inplace, inplace_reset) or break_lock + fresh objects (reopen); non-trivial = at least one operation changed the "
     "stored state of B through the server and every comparison was made (faulty sub-batch: additionally the reset fired); "
     "distinct = distinct event-log digests (every store operation of both stores and every delivered segment is logged)"
 )
@@ -41,7 +45,8 @@ COMPONENTS = {
     ],
     "simulated": [
         "both disks (SimTransport over memory stores)",
-        "the connection: byte streams with seeded segmentation and short reads (wiresim.SimPipe), connection resets at a chosen request (during send / after the server executed it), reconnection",
+        "the connection: byte streams with seeded segmentation and short reads (wiresim.SimPipe), connection resets at a chosen request (during send / after the server executed it; optionally also at its retransmission), reconnection",
+        "one injected disk error on the server's store during an operation (simkit err_before at the k-th mutating store operation)",
         "lockdir clock (virtual)",
     ],
     "stub": [
@@ -50,6 +55,7 @@ COMPONENTS = {
         "the insert_stream worker thread of the server is run synchronously at end-of-stream (wiresim._DeferredThread)",
         "lock info files: pid 1 and virtual-clock start time instead of the real pid / wall clock (wiresim.pin_lock_info; their lengths would otherwise leak into message sizes)",
         "source repository S on a third store, always accessed locally and fault-free by both sides",
+        "in runs that look past the open medium finding the observation wrapper of _send_no_retry resets the client medium when a retransmission is reset (what fixes/C32-client-reset-medium-after-failed-retransmission.diff does)",
     ],
 }
 ASSUMPTIONS = [
@@ -65,6 +71,11 @@ ASSUMPTIONS = [
     "component of B's state (tip, tags, config, parent, stacked-on per branch; revision set) equals A's value before or after the operation, the tip is a present revision, all revisions are readable and "
     "equal the model; recovery = break_lock on B locally + fresh objects on both sides (A unlocks normally), re-running the operation on B if B is not yet in A's post-state; afterwards strict equivalence again",
     "eof_after on read/idem verbs and every send reset before the body stream started must be invisible: same result, same state (strict)",
+    "send2 / eof_send (the retransmission is reset too) and store_err may make the operation fail; if the operation nevertheless returns normally its result and the stored data must be right "
+    "(only the physical lock may leak, and branch.conf-backed values may be lost: both happen in unlock, whose errors breezy suppresses by design, locally as well); after a reported failure the "
+    "operation is repeated on the SAME objects inside the SAME outer lock (tag/config/tip/parent operations, pull/push/fetch, reads) and must then succeed with the local result and state, "
+    "unless the first attempt had already been applied (eof_send) and the repeat is refused with the state already equal; "
+    "'inplace' runs use the medium as breezy leaves it (open finding: unusable after a failed retransmission), 'inplace_reset'/'reopen' runs reset it the way the candidate fix does, to look past that finding",
     "blocking-pipe read semantics (read(n) blocks until n bytes) are C30's subject; here reads are short-read style (atmost/greedy)",
 ]
 ISOLATION = "fork"
@@ -171,7 +182,7 @@ def generate(rng, tier):
     kinds = sorted(weights)
     inner = [x for x in kinds if x not in ("lock", "stack", "reopen")]
     forced = []  # operation kinds of an outer lock span still to be generated
-    nspans = rng.choice([0, 0, 1, 1, 1, 2])
+    nspans = rng.choice([0, 1, 1, 1, 2, 2])
     span_at = sorted(rng.sample(range(0, max(1, nops - 1)), min(nspans, max(1, nops - 1)))) if nspans else []
     spans = []  # [first, last] op index of every outer lock span (lock ... unlock)
     while len(ops) < nops or forced:
@@ -179,18 +190,35 @@ def generate(rng, tier):
             span_at.pop(0)
             # SEVERAL operations inside ONE outer branch write lock
             t = rng.random()
-            if t < 0.3:
+            if t < 0.22:
                 body = ["commit", "pull_new", "commit"] + rng.choice([[], ["info"], ["get_tags"], ["pull_new", "commit"]])
-            elif t < 0.45:
+            elif t < 0.32:
                 body = rng.choice([["pull_new", "commit"], ["commit", "push_new", "tree"], ["commit", "fetch", "set_last", "commit"]])
-            elif t < 0.65:
+            elif t < 0.67:
                 body = ["set_tag"] + rng.choice([["get_tags", "set_tag"], ["pull_new", "get_tags", "set_tag"], ["del_tag", "get_tags"], ["set_tag", "pull_new", "del_tag", "get_tags"]])
             elif t < 0.75:
                 body = rng.sample(["conf_set", "conf_get", "set_parent", "get_parent", "conf_set"], rng.randint(2, 4))
+            elif t < 0.83 and [r for r in src_ids if r not in revs]:
+                # ask about a revision that is not there yet (negative caches), make it arrive, ask again
+                rid = rng.choice([r for r in src_ids if r not in revs])
+                ask = [{"op": "parent_map", "keys": sorted({rid, tip})}, {"op": "has_rev", "rev": rid}, {"op": "rev", "rev": rid}, {"op": "revno_of", "rev": rid}]
+                body = rng.sample(ask, rng.randint(1, 2))
+                if rng.random() < 0.4:
+                    body.insert(0, "commit")  # attaches the VFS repository first
+                body.append(rng.choice([{"op": "pull", "rev": rid, "overwrite": True}, {"op": "fetch", "rev": rid}, {"op": "push", "rev": rid, "overwrite": True}]))
+                body += rng.sample(ask, rng.randint(1, 3))
             else:
                 body = [rng.choices(inner, [weights[x] for x in inner])[0] for _ in range(rng.randint(2, 5))]
             forced = ["lock"] + body + ["unlock"]
             spans.append([len(ops), len(ops) + len(forced) - 1])
+        if forced and isinstance(forced[0], dict):
+            op = forced.pop(0)
+            ops.append(op)
+            if op["op"] in ("pull", "push", "fetch"):
+                revs |= mh.ancestry(op["rev"])
+                if op["op"] != "fetch":
+                    tip = op["rev"]
+            continue
         if forced:
             k = forced.pop(0)
         else:
@@ -216,8 +244,9 @@ def generate(rng, tier):
             if want_new:
                 # something that really transfers revisions and moves the tip
                 newer = [r for r in src_ids if r not in revs and tip in mh.ancestry(r)]
-                rid = rng.choice(newer) if newer else rid
-            ow = rng.random() < 0.3
+                other = [r for r in src_ids if r not in revs]
+                rid = rng.choice(newer) if newer else (rng.choice(other) if other else rid)
+            ow = rng.random() < 0.3 or (want_new and tip not in mh.ancestry(rid))
             ops.append({"op": k, "rev": rid, "overwrite": ow})
             anc = mh.ancestry(rid)
             revs |= anc
@@ -292,7 +321,7 @@ def generate(rng, tier):
     in_span = {j for a, b in spans for j in range(a + 1, b)}
     if rng.random() < 0.65:
         w = [(10 if o["op"] == "commit" else 4) if o["op"] in ("commit", "pull", "push", "fetch", "stack") else (2 if o["op"] in OP_CLASSES else 1) for o in ops]
-        w = [x * (3 if j in in_span else 1) for j, x in enumerate(w)]
+        w = [x * ((25 if ops[j]["op"] == "set_tag" else 8 if ops[j]["op"] == "del_tag" else 3) if j in in_span else 1) for j, x in enumerate(w)]
         i = rng.choices(range(len(ops)), w)[0]
         classes = OP_CLASSES.get(ops[i]["op"], ["read"])
         deep = ops[i]["op"] == "commit"  # a commit through the VFS verbs makes dozens of requests
@@ -312,6 +341,9 @@ def generate(rng, tier):
                 "recover": rng.choice(["inplace", "inplace_reset", "inplace_reset", "reopen"]),
             }
         )
+        if ops[i]["op"] in ("set_tag", "del_tag") and i in in_span and rng.random() < 0.7:
+            # a tag write that fails for good inside an outer lock and is repeated there
+            plan["resets"][-1].update(cls="verb:Branch.set_tags_bytes", nth=0, kind=rng.choice(["send2", "send2", "eof_send"]), recover="inplace_reset")
         if ops[i]["op"] in STORE_ERR_OPS and rng.random() < 0.3:
             # instead of a reset: the SERVER's disk fails once (an error response, the connection stays usable)
             simple = ops[i]["op"] not in ("pull", "push", "fetch")
@@ -381,6 +413,7 @@ class _Watch:
         self.op_verbs = []
         self.retried = []
         self.unsafe = []  # verbs re-sent although their body stream had been (partly) consumed
+        self.heal = False  # see _send_no_retry
 
 
 def _watch():
@@ -423,10 +456,20 @@ def _install_hooks():
                     first = {"send2": "send", "eof_send": "eof_after"}.get(spec["kind"], spec["kind"])
                     rec = {"req": idx, "kind": first, "write": spec.get("write", 0)}
                     w.ww.resets.append(rec)
-                    if first != spec["kind"]:
-                        w.ww.resets.append({"req": idx + 1, "kind": "send", "write": 0})  # the client's retransmission is lost too
-                    w.armed = {"req": idx, "verb": verb, "cls": cls, "kind": spec["kind"], "stream": self.body_stream is not None, "encoder": encoder, "reset": rec}
+                    w.armed = {"req": idx, "verb": verb, "cls": cls, "kind": spec["kind"], "stream": self.body_stream is not None, "encoder": encoder, "reset": rec, "request": self, "double": first != spec["kind"]}
                 w.matching += 1
+            a = w.armed
+            if nsent and a is not None and a["double"] and a["request"] is self and not a.get("second"):
+                a["second"] = {"req": idx, "kind": "send", "write": 0}  # the client's one retransmission is lost too
+                w.ww.resets.append(a["second"])
+            if nsent and w.heal:
+                try:
+                    return orig(self, encoder)
+                except ConnectionResetError:
+                    # runs that look past the open finding "medium unusable after a failed retransmission"
+                    # do here what the candidate fix does in _send/_call
+                    self.client._medium.reset()
+                    raise
         return orig(self, encoder)
 
     _send_no_retry._c32 = True
@@ -794,6 +837,7 @@ def execute(sim, plan):
         n0 = ww.nreq
         spec = watch.pending
         store_err = spec is not None and spec["kind"] == "store_err"
+        watch.heal = bool(spec) and spec.get("recover", "reopen") != "inplace"
         if store_err:
             watch.pending = None
             nerr0 = sim.faults_fired["err_before"]
@@ -826,6 +870,14 @@ def execute(sim, plan):
                 ["resent_consumed_stream", watch.unsafe[0]] + tag,
                 f"op {i} {opk}: the client sent {watch.unsafe[0]} a second time after its body stream had started (the stream cannot be replayed: the second request carries a truncated body); reset {tag}",
             )
+        m = ww.shared_medium
+        if fired and armed.get("double") and armed.get("second", {}).get("done") and m is not None and m._current_request is not None:
+            sim.fail(
+                "inplace_retry",
+                ["inplace_retry", "medium-unusable-after-failed-retransmission"],
+                f"op {i} {op}: {armed['verb']} was reset {tag} and the client's one retransmission was reset too; the operation ended with {rb!r:.200} and left the client medium with _current_request set: every later call on it raises TooManyConcurrentRequests "
+                "(_SmartClientRequest._send/_call reset the medium only after the FIRST ConnectionResetError); e.g. the unlock in the caller's finally block cannot be sent and the server-side lock leaks",
+            )
         must_hide = True
         if fired:
             if armed["kind"] == "send":
@@ -838,7 +890,11 @@ def execute(sim, plan):
         if fired and not must_hide and b_ok and not strict_ok:
             # the operation reported success although a request of it failed for good (errors of
             # unlock are suppressed by design): what it reported must be true - only the lock may have leaked
-            d = obs_diff(obs_a, obs_b, ignore=("phys",) + (DEFERRED if A.depth else ()))
+            # branch.conf changes are saved by unlock, whose errors breezy suppresses by design (only_raises) -
+            # locally just as remotely - so a lost save of them is not held against the remote path
+            d = obs_diff(obs_a, obs_b, ignore=("phys",) + DEFERRED)
+            if obs_diff(obs_a, obs_b, ignore=("phys",)) and not d:
+                sim.probe("config_save_lost_in_suppressed_unlock_error")
             if not a_ok or norm(ra) != norm(rb) or d:
                 sim.fail(
                     "false_success",
@@ -874,6 +930,16 @@ def execute(sim, plan):
                         ["inplace_retry", "medium-unusable-after-failed-retransmission"],
                         f"op {i} {op}: failed on B with {rb!r} after reset {tag} (the client's one retransmission was reset too); every later call on the same medium - here the same operation repeated ({where}) - fails with {rb2!r:.300}: _SmartClientRequest._send/_call reset the medium only after the FIRST ConnectionResetError, the failed retransmission leaves medium._current_request set",
                     )
+                if a_ok and isinstance(rb2, Failed) and armed["kind"] == "eof_send" and not obs_diff(obs_a, obs_b, ignore=DEFERRED if A.depth else ()):
+                    sim.probe("inplace_retry_refused_but_first_attempt_had_been_applied")
+                    continue
+                if a_ok and isinstance(rb2, Failed) and opk == "del_tag" and rb2.name == "NoSuchTag" and A.depth and op["name"] in dict(map(tuple, obs_b["br"]["tags"])):
+                    sim.fail(
+                        "optimistic_tags_cache",
+                        ["optimistic_tags_cache", "failed-delete_tag-cannot-be-repeated-inside-the-lock"],
+                        f"op {i} {op}: inside an outer write lock the tag write failed on B ({rb!r:.200}, {tag}) and nothing was stored, but RemoteBranch had put the new tag dict into its cache BEFORE sending it: the repeated delete_tag raises {rb2!r:.120} "
+                        f"(and in-lock reads no longer show the tag) while the server still has it: B={obs_b['br']['tags']!r:.200} A={obs_a['br']['tags']!r:.200}",
+                    )
                 if a_ok and isinstance(rb2, Failed):
                     sim.fail(
                         "inplace_retry",
@@ -894,6 +960,16 @@ def execute(sim, plan):
             while A.depth:
                 A.depth -= 1
                 A.branch.unlock()
+            # B's client leaves its `with branch.lock_write():` block too: unlock is attempted (it flushes
+            # pending branch.conf changes like A's does) on a re-established connection; errors are ignored
+            if B.depth and ww.shared_medium is not None:
+                ww.shared_medium.reset()
+            while B.depth and B.branch is not None:
+                B.depth -= 1
+                try:
+                    B.branch.unlock()
+                except Exception:  # noqa: BLE001, S110 - whatever is left is broken below
+                    pass
             B.drop()
             ww.shared_medium = None
             for nm in names:
@@ -950,6 +1026,12 @@ def execute(sim, plan):
                 sim.fail("recovery", ["recovery", opk] + tag + [",".join(d)], f"op {i} {opk}: after recovery B differs from A in {d}: A={[_pick(obs_a, x) for x in d]} B={[_pick(obs_b, x) for x in d]}")
             continue
         # ---- strict oracle --------------------------------------------------------------
+        if a_ok and not b_ok and opk == "del_tag" and rb.name == "NoSuchTag" and pulled_in_span and A.depth and op["name"] in src_tag_names:
+            sim.fail(
+                "stale_tags_cache",
+                ["stale_tags_cache", "pull-inside-outer-write-lock"],
+                f"op {i} {op}: inside one outer write lock, after a pull that merged the source's tags {sorted(src_tag_names)}, deleting the merged tag through RemoteBranch raises {rb!r:.120}: its tags cache from before the pull does not have it; locally the tag is deleted",
+            )
         if a_ok != b_ok:
             if fired:
                 oracle = "retry_not_transparent"
